@@ -411,7 +411,12 @@ pub fn mutate(rng: &mut Rng, p: &mut Program) {
                 0 if !p.names.is_empty() => {
                     p.names.pop();
                 }
-                1 => p.names.push("extra".into()),
+                1 => p.names.push(if rng.chance(0.3) {
+                    // a long name with commas and multi-byte characters at every alignment
+                    format!("{}{}", "a".repeat(rng.below(4)), "τ1,τ2,τ3,τ4,τ5,τ6,τ7,τ8,τ9,τ10,τ11,τ12,τ13,τ14,τ15,τ16")
+                } else {
+                    "extra".into()
+                }),
                 2 if !p.names.is_empty() => {
                     let c = p.names[0].clone();
                     p.names.push(c);
